@@ -64,6 +64,11 @@ TEXT = {
   technique='schedule exploration by property-based testing under the Go race detector: generated goroutine mixes (2..32 readers with own handles, concurrent SetCacheSize), GOMAXPROCS 1..16, yield/sleep injection in the backend ReadAt; oracle = bytes equal the sequential expectation, completion before a watchdog, no race report',
   level_text='Many generated schedules per run, each checked for byte equality, termination and data races (go test -race, halt_on_error). Exploration: schedules are sampled, absence of a bad interleaving is not shown.',
   level_note='Trusts the Go race detector and the watchdog bound; a flaky failure is reported with the journaled case but its replay is probabilistic.'),
+ 'C14': dict(
+  design_ref='DESIGN.md §4 C14',
+  technique='metamorphic property-based testing: generated reproducible FAT histories x SOURCE_DATE_EPOCH values executed at two placements in-process and again in a child process 2.1 s later under another TZ, SHA-256 of the volume range must agree; generated GPT/MBR tables written twice and re-written after reading must leave identical bytes',
+  level_text='Generated histories with a metamorphic oracle (same inputs, different time / process / placement => same bytes). Exploration.',
+  level_note='Trusts SHA-256 comparison of the instrumented device; the second pass is one batch per shard.'),
  'C15': dict(
   design_ref='DESIGN.md §4 C15',
   technique='fault enumeration: every GPT header field x boundary values x CRC recomputed/stale x primary/backup/both, 2-field size combinations, entry and MBR-slot corruptions, truncations, plus random images; oracle = no panic, watchdog, heap-allocation bound, returned tables only from CRC-valid data (independent parser); thorough adds a native go fuzz campaign',
